@@ -54,7 +54,7 @@ manifest = {
          "kind_free_text": "Hypothesis 6.168 property tests (16 seeded shards, shrinking) + bounded-exhaustive enumerators on a process pool, brute-force reference oracles independent of the package"},
     ],
     "checks": checks,
-    "notes": "All checks: ./vcheck <ID> --tier quick|thorough; VERIF_SEED selects the Hypothesis seeds; exit 0 held / 1 VIOLATION / 2 harness error or inconclusive. Known findings and fixed defects: known_findings.json. Fixes to the repository: eight 'fix:' commits (F1-F8, DESIGN.md section 9).",
+    "notes": "All checks: ./vcheck <ID> --tier quick|thorough; VERIF_SEED selects the Hypothesis seeds; exit 0 held / 1 VIOLATION / 2 harness error or inconclusive. Known findings and fixed defects: known_findings.json. Fixes to the repository: nine 'fix:' commits (F1-F9, DESIGN.md section 9).",
     "not_applicable": na,
 }
 json.dump(manifest, open("MANIFEST.json", "w"), indent=1)
